@@ -101,7 +101,10 @@ impl Family for C07 {
         }
         let rate = if rng.chance(1, 2) { rng.below(31) } else { 0 };
         let mut backend = gen_rd_backend(rng, index / 10, rate, nops * 8 + 16);
-        if rng.chance(1, 10) {
+        // (the configuration replay of C19 compares complete event logs, and nothing is
+        // specified after an injected hard fault: benign faults only there)
+        let hard_ok = !crate::p01::CLEAN_ARGS.load(std::sync::atomic::Ordering::Relaxed);
+        if rng.chance(1, 10) && hard_ok {
             if let Some(p) = backend.plan_mut() {
                 let at = rng.usize_range(0, nops * 4);
                 p.at.retain(|(c, _)| *c != at);
